@@ -74,7 +74,9 @@ size_t HyperedgeRerouter::count(void) const
 HyperedgeNewAndDeletedObjectLists HyperedgeRerouter::newAndDeletedObjectLists(
         size_t index) const
 {
-    COLA_ASSERT(index <= count());
+    // The registered terminals are cleared once rerouting has been performed
+    // (so count() is zero by then), but the result lists persist.
+    COLA_ASSERT(index < m_new_junctions_vector.size());
 
     HyperedgeNewAndDeletedObjectLists result;
 
